@@ -22,13 +22,14 @@ KINDS = {
     'fn': ('K_fn', 'int (*)(long)', 'int (*%s)(long)', 'g_ptr_t %s', (2, 2), (2, 2)),
     'ca': ('K_ca', 'char[5]', 'char %s[5]', 'char %s[5]', (5, 1), (5, 1)),
     'la': ('K_la', 'long[3]', 'long %s[3]', 'g_long_t %s[3]', (12, 4), (24, 8)),
+    'l2': ('K_l2', 'long[2][3]', 'long %s[2][3]', 'g_long_t %s[2][3]', (24, 4), (48, 8)),
     'pa': ('K_pa', 'int*[2]', 'int* %s[2]', 'g_ptr_t %s[2]', (4, 2), (4, 2)),
     'ns': ('K_ns', 'Inner', 'Inner %s', 'GInner %s', (8, 4), (16, 8)),
     'ci': ('K_ci', 'const int', 'const int %s', 'g_int_t %s', (4, 4), (8, 8)),
 }
 ALL = list(KINDS)
 # kinds whose guest size or alignment differs from the host's or from each other (length-4 family)
-REDUCED = ['c', 's', 'l', 'll', 'p', 'ca', 'la', 'ns']
+REDUCED = ['c', 's', 'l', 'll', 'p', 'ca', 'la', 'l2', 'ns']
 
 
 P64 = {'p': (8, 8), 'fn': (8, 8), 'pa': (16, 8)}
@@ -145,7 +146,7 @@ def emit_test(n, kinds, abi):
     t.append('    if (o != RET) R.bad("roundtrip", "-", "abort", "representable field values aborted", sel);')
     t.append('  }')
     # unrepresentable field values
-    unrep = [i for i, k in enumerate(kinds) if k in (('l', 'ul', 'la') if abi != 'wide' else ('s', 'i'))]
+    unrep = [i for i, k in enumerate(kinds) if k in (('l', 'ul', 'la', 'l2') if abi != 'wide' else ('s', 'i'))]
     if unrep:
         i = unrep[0]
         f = fields[i]
@@ -154,7 +155,7 @@ def emit_test(n, kinds, abi):
         t.append('    tn<S*> ps; ps.assign_raw_pointer(*g_sb, reinterpret_cast<S*>(g_base + 0x200)); GS g; memset(&g, 0, sizeof g); memcpy(g_mem + 0x200, &g, sizeof g);')
         t.append('    n_eval += 2; n_nontriv += 2;')
         if abi != 'wide':
-            setter = {'l': 't.%s = 0x10000000000L;' % f, 'ul': 't.%s = 0x10000000000UL;' % f, 'la': 't.%s[1] = 0x10000000000L;' % f}[k]
+            setter = {'l': 't.%s = 0x10000000000L;' % f, 'ul': 't.%s = 0x10000000000UL;' % f, 'la': 't.%s[1] = 0x10000000000L;' % f, 'l2': 't.%s[1][2] = 0x10000000000L;' % f}[k]
             t.append('    { tn<S> t = *ps; %s' % setter)
             t.append('      int c1 = in_child([&] { *ps = t; });')
             t.append('      if (c1 != CH_ABORT) R.bad("store", %s::n, "unrepresentable-not-aborted", "field %s = 2^40 does not fit the guest type; store ended with code " + std::to_string(c1), "unrep");' % (K[i], f))
